@@ -85,6 +85,7 @@ type Obligation struct {
 // VC accumulates one SMT context (declarations + assertions in order) for one function under
 // verification; each obligation is a prefix of that context plus a negated goal.
 type VC struct {
+	usedAnchors  map[string]bool // contract anchors that matched a program point
 	prog         *Program
 	fnName       string
 	declared     map[string]bool
@@ -116,7 +117,7 @@ type VC struct {
 
 func newVC(p *Program, name string) *VC {
 	return &VC{prog: p, fnName: name, declared: map[string]bool{}, inlined: map[string]bool{}, assumed: map[string]bool{},
-		havocked: map[string]bool{}, structs: map[string]bool{}, litCache: map[string]string{}, compSorts: map[string]string{}, storeDefs: map[string][3]string{}, closureBinds: map[string][]Val{}, fresh_: map[string]bool{}, fnOfTerm: map[string]*ssa.Function{}, arrayLits: map[string][]string{}, regions: map[string]string{}, nonNil: map[string]bool{}, compTypes: map[string]types.Type{}, knownTag: map[string]int{}, tags: map[string]int{}, fnIDs: map[*ssa.Function]int{}}
+		havocked: map[string]bool{}, structs: map[string]bool{}, litCache: map[string]string{}, compSorts: map[string]string{}, storeDefs: map[string][3]string{}, closureBinds: map[string][]Val{}, fresh_: map[string]bool{}, fnOfTerm: map[string]*ssa.Function{}, arrayLits: map[string][]string{}, regions: map[string]string{}, nonNil: map[string]bool{}, compTypes: map[string]types.Type{}, knownTag: map[string]int{}, tags: map[string]int{}, fnIDs: map[*ssa.Function]int{}, usedAnchors: map[string]bool{}}
 }
 
 func (vc *VC) fresh(base string) string {
